@@ -845,6 +845,16 @@ class BTreeSet(BTree, Generic[KT], MutableSet[KT]):
         super().__init__(t=t, original=original)
         self.in_order = in_order
 
+    @classmethod
+    def _from_iterable(cls, it):
+        # The Set mixin builds the result of the binary operators (&, |, -, ^
+        # and, through them, &= and ^=) with cls._from_iterable(it), which
+        # defaults to cls(it); our constructor does not take an iterable.
+        result = cls()
+        for value in it:
+            result.add(value)
+        return result
+
     def __contains__(self, x: object) -> bool:
         return self.get_element(x) is not None
 
